@@ -71,6 +71,78 @@ def translate():
     return info
 
 
+def coq_requires(path):
+    """logical names (relative to the NV root where known) required by one .v file"""
+    try:
+        txt = strip_coq_comments(open(path, encoding="utf-8").read())
+    except OSError:
+        return []
+    out = []
+    for m in re.finditer(r"(?:\bFrom\s+([\w.]+)\s+)?\bRequire\b(.*?)\.(?=\s|$)", txt, re.S):
+        root = m.group(1)
+        for tok in m.group(2).split():
+            if tok in ("Import", "Export") or tok.startswith("-(") or tok.startswith("("):
+                continue
+            out.append((root, tok))
+    return out
+
+
+def gen_deps(cid):
+    """names of the coq/Gen/*.v files that Props/<cid>.v requires, transitively (scan of the Require lines through
+    the development); None when the dependency cannot be determined (callers then assume: all of them)"""
+    start = os.path.join(COQ, "Props", cid + ".v")
+    if not os.path.exists(start):
+        return None
+    allv = []
+    for d, _, fs in os.walk(COQ):
+        for f in fs:
+            if f.endswith(".v"):
+                allv.append(os.path.relpath(os.path.join(d, f), COQ))
+    seen, todo, gens = set(), [os.path.relpath(start, COQ)], set()
+    while todo:
+        rel = todo.pop()
+        if rel in seen:
+            continue
+        seen.add(rel)
+        if os.path.dirname(rel) == "Gen":
+            gens.add(os.path.basename(rel))
+        for root, name in coq_requires(os.path.join(COQ, rel)):
+            if root is not None and root.split(".")[0] != "NV":
+                continue  # From Coq ... / other libraries
+            parts = (root.split(".")[1:] if root else []) + name.split(".")
+            if parts and parts[0] == "NV":
+                parts = parts[1:]
+            cand = "/".join(parts) + ".v"
+            hits = [cand] if cand in allv else []
+            if not hits and root is None:  # `Require Import X.Y` without From: match as a suffix
+                hits = [v for v in allv if v == cand or v.endswith("/" + cand)]
+                if len(hits) > 1:
+                    return None
+            if not hits:
+                if root is not None:
+                    return None  # a NV module we cannot locate: do not guess
+                continue  # standard library / plugin
+            todo.extend(hits)
+    return gens
+
+
+def translator_errors_for(cid, info):
+    """[(generated file, message)]: the translator failures that concern property cid.  A failure to generate
+    Gen/X.v concerns the properties whose Props/Cxx.v transitively requires Gen/X.v; a failure that is not
+    attributed to a file (crash of the translator as a whole), or an undeterminable dependency, concerns all."""
+    if "error" not in info:
+        return []
+    errs = info.get("errors")
+    if not isinstance(errs, dict) or not errs:
+        return [("*", info["error"])]
+    deps = gen_deps(cid)
+    out = []
+    for f, msg in sorted(errs.items()):
+        if deps is None or f in deps:
+            out.append((f, msg))
+    return out
+
+
 def ensure_static_gen():
     """GenStdUnicode.v / GenUnicodeRef.v do not depend on /repo; (re)generate when missing"""
     need = [os.path.join(COQ, "Gen", f) for f in ("GenStdUnicode.v", "GenUnicodeRef.v", "unicode_ref.json")]
